@@ -72,6 +72,87 @@ def lin_of_fstring(e: ast.expr) -> Lin:
     raise Undecided(f"R2.1: emitted piece outside the template fragment: {ast.unparse(e)[:60]}")
 
 
+def canon(fn_node: ast.AST) -> ast.AST:
+    """Copy of a function with its locals renamed to canonical ROLE names found by structural matching, so that the
+    shape checks below do not depend on what the locals are called."""
+    import copy
+
+    t = copy.deepcopy(fn_node)
+    for n in ast.walk(t):
+        if hasattr(n, "_parent"):
+            try:
+                delattr(n, "_parent")
+            except Exception:
+                pass
+    ren: Dict[str, str] = {}
+
+    def callee(c: ast.AST) -> str:
+        if isinstance(c, ast.Await):
+            c = c.value
+        return ast.unparse(c.func) if isinstance(c, ast.Call) else ""
+
+    def names(tg) -> List[str]:
+        return [e.id for e in tg.elts if isinstance(e, ast.Name)] if isinstance(tg, ast.Tuple) else ([tg.id] if isinstance(tg, ast.Name) else [])
+
+    for n in ast.walk(t):
+        if isinstance(n, (ast.For, ast.AsyncFor, ast.comprehension)):
+            it = n.iter
+            tg = names(n.target)
+            if isinstance(it, ast.Name) and it.id in ("ranges",) and len(tg) == 2:
+                ren.update({tg[0]: "start", tg[1]: "end"})
+            elif callee(it) == "range" and len(tg) == 1:
+                ren[tg[0]] = "here" if len(it.args) == 3 and ast.unparse(it.args[0]) != "0" else "_"
+        elif isinstance(n, (ast.With, ast.AsyncWith)):
+            for item in n.items:
+                if callee(item.context_expr) == "open" and isinstance(item.optional_vars, ast.Name):
+                    ren[item.optional_vars.id] = "file"
+        elif isinstance(n, ast.Assign) and len(n.targets) == 1:
+            tg = names(n.targets[0])
+            c = callee(n.value)
+            v = ast.unparse(n.value)
+            if c == "open_for_sendfile" and len(tg) == 1:
+                ren[tg[0]] = "file_descriptor"
+            elif c == "self.create_send_or_zerocopy" and len(tg) == 1:
+                ren[tg[0]] = "sendfile"
+            elif c == "self.generate_multipart" and len(tg) == 2:
+                ren.update({tg[0]: "content_length", tg[1]: "generate_headers"})
+            elif "random_choices(" in v and len(tg) == 1:
+                ren[tg[0]] = "boundary"
+            elif v == "self.stat_result" and len(tg) == 1:
+                ren[tg[0]] = "stat_result"
+            elif v.endswith(".st_size") and len(tg) == 1:
+                ren[tg[0]] = "file_size"
+            elif v.endswith("== 'HEAD'") and len(tg) == 1:
+                ren[tg[0]] = "send_header_only"
+            elif c == "self.parse_range" and len(tg) == 1:
+                ren[tg[0]] = "ranges"
+            elif v == "len(boundary)" and len(tg) == 1:
+                ren[tg[0]] = "boundary_len"
+        elif isinstance(n, ast.Lambda) and len(n.args.args) == 2:
+            ren.update({n.args.args[0].arg: "start", n.args.args[1].arg: "end"})
+    # second pass for names that depend on the first (ranges -> start, end ; ranges[0])
+    for n in ast.walk(t):
+        if isinstance(n, (ast.For, ast.AsyncFor, ast.comprehension)) and isinstance(n.iter, ast.Name) and ren.get(n.iter.id) == "ranges":
+            tg = names(n.target)
+            if len(tg) == 2:
+                ren.update({tg[0]: "start", tg[1]: "end"})
+        if isinstance(n, ast.Assign) and isinstance(n.value, ast.Subscript) and isinstance(n.value.value, ast.Name) and ren.get(n.value.value.id, n.value.value.id) == "ranges":
+            tg = names(n.targets[0])
+            if len(tg) == 2:
+                ren.update({tg[0]: "start", tg[1]: "end"})
+    params = {a.arg for a in t.args.posonlyargs + t.args.args + t.args.kwonlyargs}
+    ren = {k: v for k, v in ren.items() if k not in params and k != v}
+    for n in ast.walk(t):
+        if isinstance(n, ast.Name) and n.id in ren:
+            n.id = ren[n.id]
+        elif isinstance(n, ast.arg) and n.arg in ren and any(n in l.args.args for l in ast.walk(t) if isinstance(l, ast.Lambda)):
+            n.arg = ren[n.arg]
+    for n in ast.walk(t):
+        for c in ast.iter_child_nodes(n):
+            c._parent = n  # type: ignore[attr-defined]
+    return t
+
+
 def run(p: Program, rep: Report, tier: str) -> None:
     rep.explanation = (
         "R2.1 symbolic length algebra: the multipart/byteranges Content-Length formula and the bytes actually emitted are both "
@@ -93,11 +174,12 @@ def run(p: Program, rep: Report, tier: str) -> None:
     rep.analysed(gm.fq)
 
     # ---------------------------------------------------------------- R2.1
+    gmn = canon(gm.node)
     env: Dict[str, ast.expr] = {}
-    for n in walk_shallow(gm.node):
+    for n in walk_shallow(gmn):
         if isinstance(n, ast.Assign) and isinstance(n.targets[0], ast.Name):
             env[n.targets[0].id] = n.value
-    ret = [n for n in walk_shallow(gm.node) if isinstance(n, ast.Return)]
+    ret = [n for n in walk_shallow(gmn) if isinstance(n, ast.Return)]
     if not ret or not isinstance(ret[0].value, ast.Tuple) or len(ret[0].value.elts) != 2:
         raise Undecided("R2.1: generate_multipart no longer returns (content_length, header generator)")
     cl_expr, lam = ret[0].value.elts
@@ -125,7 +207,8 @@ def run(p: Program, rep: Report, tier: str) -> None:
         if h is None:
             raise AnalysisError(f"{side} handle_several_ranges vanished")
         rep.analysed(h.fq)
-        loops = [n for n in ast.walk(h.node) if isinstance(n, (ast.For, ast.AsyncFor)) and ast.unparse(n.iter) == "ranges"]
+        hn = canon(h.node)
+        loops = [n for n in ast.walk(hn) if isinstance(n, (ast.For, ast.AsyncFor)) and ast.unparse(n.iter) == "ranges"]
         if len(loops) != 1 or ast.unparse(loops[0].target) != "(start, end)":
             rep.undecide("R2.1", f"{side}: no `for start, end in ranges` loop")
             continue
@@ -194,12 +277,12 @@ def run(p: Program, rep: Report, tier: str) -> None:
             rep.violation("R2.1", construct("baize.responses:FileResponseMixin.generate_multipart", text=f"closing length: formula {closing_formula.show()} | {side} emits {closing.show()}"), where(gm),
                           f"the closing-delimiter term of the Content-Length formula disagrees with what {side} emits after the last range")
         # content-length header is the formula's value
-        hs = [n for n in walk_shallow(h.node) if isinstance(n, ast.Assign) and ast.unparse(n.targets[0]).replace('"', "'") == "self.headers['content-length']"]
-        if hs and ast.unparse(hs[0].value) == "str(content_length)" and any(isinstance(n, ast.Assign) and ast.unparse(n.targets[0]) == "(content_length, generate_headers)" and "generate_multipart(ranges, boundary, file_size, self.content_type)" in ast.unparse(n.value) for n in walk_shallow(h.node)):
+        hs = [n for n in walk_shallow(hn) if isinstance(n, ast.Assign) and ast.unparse(n.targets[0]).replace('"', "'") == "self.headers['content-length']"]
+        if hs and ast.unparse(hs[0].value) == "str(content_length)" and any(isinstance(n, ast.Assign) and ast.unparse(n.targets[0]) == "(content_length, generate_headers)" and "generate_multipart(ranges, boundary, file_size, self.content_type)" in ast.unparse(n.value) for n in walk_shallow(hn)):
             rep.ok("R2.1", f"{side}: content-length header = str(content_length) of generate_multipart(ranges, boundary, file_size, self.content_type)")
         else:
             rep.violation("R2.1", construct(h, text="content-length of the multipart body"), where(h), f"{side}: the multipart Content-Length header is not the value computed by generate_multipart for these ranges")
-        ct = [n for n in walk_shallow(h.node) if isinstance(n, ast.Assign) and ast.unparse(n.targets[0]).replace('"', "'") == "self.headers['content-type']"]
+        ct = [n for n in walk_shallow(hn) if isinstance(n, ast.Assign) and ast.unparse(n.targets[0]).replace('"', "'") == "self.headers['content-type']"]
         if ct and ast.unparse(ct[0].value).replace('"', "'") == "f'multipart/byteranges; boundary={boundary}'":
             rep.ok("R2.1", f"{side}: content-type announces the boundary that is used")
         else:
@@ -262,7 +345,7 @@ def run(p: Program, rep: Report, tier: str) -> None:
                             rep.violation("R2.2", construct(h, m), where(h, m), f"{side} {hname}: a header is written under the HEAD/GET branch (HEAD and GET headers differ)")
         # single range reader args
         h = cls.methods["handle_single_range"]
-        src = ast.unparse(h.node)
+        src = ast.unparse(canon(h.node))
         if side == "wsgi":
             ok = "file.seek(start)" in src and "range(start, end, self.chunk_size)" in src and "min(self.chunk_size, end - here)" in src
         else:
@@ -272,7 +355,7 @@ def run(p: Program, rep: Report, tier: str) -> None:
         else:
             rep.violation("R2.2", construct(h, text="single-range reader arguments"), where(h), f"{side}: the bytes read for a single range are not [start, end) of the headers")
         ha = cls.methods["handle_all"]
-        src = ast.unparse(ha.node)
+        src = ast.unparse(canon(ha.node))
         ok = ("range(0, file_size, self.chunk_size)" in src and "file.read(self.chunk_size)" in src) if side == "wsgi" else "sendfile(file_descriptor)" in src
         if ok:
             rep.ok("R2.2", f"{side}: the whole-file reader covers [0, file_size)")
@@ -354,7 +437,7 @@ def run(p: Program, rep: Report, tier: str) -> None:
         if n_range == 0 or n_err == 0:
             rep.undecide("R2.3", f"{side}: __call__ has {n_range} range paths / {n_err} error paths")
         # file_size is the captured stat's size
-        src = ast.unparse(call.node)
+        src = ast.unparse(canon(call.node))
         if "stat_result = self.stat_result" in src and "file_size = stat_result.st_size" in src:
             rep.ok("R2.2", f"{side}: file_size is st_size of the stat_result captured at construction")
         else:
@@ -404,7 +487,7 @@ def run(p: Program, rep: Report, tier: str) -> None:
             rep.ok("R2.5", f"asgi {hname}: the descriptor is closed on every normal and exceptional exit ({len(paths)} paths)")
     for side_h in ("handle_all", "handle_single_range", "handle_several_ranges"):
         h = p.cls("baize.wsgi.responses:FileResponse").methods[side_h]
-        withs = [n for n in ast.walk(h.node) if isinstance(n, ast.With) and "open(self.filepath, 'rb')" in ast.unparse(n.items[0].context_expr)]
+        withs = [n for n in ast.walk(canon(h.node)) if isinstance(n, ast.With) and "open(self.filepath, 'rb')" in ast.unparse(n.items[0].context_expr)]
         opens = [c for c in calls_in(h) if isinstance(c.func, ast.Name) and c.func.id == "open"]
         if withs and len(opens) == len(withs):
             rep.ok("R2.5", f"wsgi {side_h}: file opened with a context manager")
